@@ -1,5 +1,38 @@
 ENTRY = dict(
     runner="C33", pkg="./cmd/c33", corr=["Corr.C33Corr"], n=dict(quick=300, thorough=4000), runner_timeout=2400,
-    rule="placeholder",
-    trusted_base=[], assumes=[], level_text="placeholder",
+    rule="(a) parser level, recover() + 2 s guard around every call: 15 EncryptedExtensions / CompressedCertificate shapes under 9 "
+         "byte-level mutations through encryptedExtensionsMsg.unmarshal, utlsCompressedCertificateMsg.unmarshal and "
+         "Conn.unmarshalHandshakeMessage on a CLIENT connection (TLS 1.2 / 1.3), all 256 type bytes, and decompressCert's decisions "
+         "before its buffer (3 advertised sets x 5 algorithms x 5 declared lengths x 2 payloads). (b) live, loopback TCP, every client "
+         "Handshake and up to 64 following Reads under a connection deadline (1.2 s grid, 3 s otherwise, 0.4 s for silent servers) "
+         "with recover(); hang = not returned 2 s after the deadline; runtime.MemStats.TotalAlloc delta per run, limit 12 MiB: "
+         "all 38 predefined parrots + HelloGolang + 3 randomized + Chrome_120's spec advertising zstd/brotli/zlib against the scripted "
+         "server, 10 draws per parrot from 6 scenarios (TLS 1.3, +HelloRetryRequest with cookie and group, +CompressedCertificate "
+         "(payload compressed ahead of time), +ALPS, +CertificateRequest, TLS 1.2) x target message x 19 mutations (bit flips, random "
+         "byte, header length up/down, u8/u16/u24 field edits, truncation with/without header fix, extension with/without fix, "
+         "duplication, type swap, drop, reorder with the next message, 16 MiB declared, empty body, zero / ff fill) applied to the "
+         "plaintext before transcript and encryption; 6 post-handshake messages (NewSessionTicket incl. early_data and 60 KiB label, "
+         "300-ticket flood, KeyUpdate x40, stray EncryptedExtensions / CompressedCertificate) under the same mutations; targeted: "
+         "declared 16 MiB / max / max+1, zstd Window_Size 512 / 64 / 8 MiB, brotli WBITS 24 + 16 MiB meta-block, 256 KiB of zeros; "
+         "HelloRetryRequest cookies of 1 / 32 / 4000 bytes against custom specs with 1..4 extensions (cookie position checked "
+         "against the model), a 65000-byte cookie and a 60000-byte ALPS value against real parrots, resumption followed by a "
+         "HelloRetryRequest; 14 kinds of raw record streams from a plain TCP server. Distinct by input bytes resp. (parrot, scenario, "
+         "message, mutation); non-trivial when a parser accepted resp. always for live runs.",
+    trusted_base=["/repo/verif_server.go (scripted server, MutateHandshakeMsg choke point) and harness/hs; hooks verif_c22.go, verif_c34.go "
+                  "(VerifC34UnmarshalHandshakeMessage, VerifC34UnmarshalCompressedCert, VerifC34WriteHandshakeRecord), verif_c21.go "
+                  "(VerifDecompressCert), verif_c12.go",
+                  "runtime.MemStats.TotalAlloc around one connection: client and in-process scripted server together (certificates are "
+                  "compressed ahead of time so that encoder memory stays out); 12 MiB = 8 MiB RFC 8878 decoder window + messages + slack",
+                  "loopback TCP and the Go scheduler: a hang is 'client goroutine not returned 2 s after the connection deadline'",
+                  "Model/RobustSrv.v cryptobyte / readHandshake model (shared with C34), Model/Alps.v (shared with C22)"],
+    assumes=["upstream unmarshalers of the standard handshake messages are total boolean functions (Section variable std) and the handlers "
+             "between read points are an arbitrary transition function (Section variable next)",
+             "input bytes are byte-valued (bytes_ok); bytes.Buffer.Next, append and make within the proven sizes never panic",
+             "the decompressors' internal allocations and running time are not modelled (observed: zstd capped by the fix, brotli = finding)"],
+    level_text="Proof (partial): no panic and no non-termination of the uTLS-specific client paths on all inputs - message-type switch with "
+               "types 8/25, encryptedExtensionsMsg.unmarshal, utlsCompressedCertificateMsg.unmarshal, utlsReadServerParameters, "
+               "utlsReadServerCertificate / decompressCert up to the decompressor, the HelloRetryRequest cookie insertion for every "
+               "extension list and random draw - and every buffer these paths allocate is <= maxHandshakeCertificateMsg + 4 on the capped "
+               "code (uncapped code refuted: F-33). The upstream state machine, record layer, deadlines and decompressor internals are "
+               "covered by mutation runs with recover() + deadline + allocation sampling on every check.",
 )
